@@ -239,9 +239,17 @@ bool StringToUrlPath(const std::string &str, Url::Path &path)
     if (str.empty() || str[0] != '/')
         return false;
 
-    auto semi_pos = str.find_first_of(';');
-    auto query_pos = str.find_first_of('?');
+    //! 顺序固定为 <path>;<params>?<query>#<frag>：frag 从第一个 '#' 开始，其后的 '?' ';' 都属于 frag；
+    //! query 从 '#' 之前的第一个 '?' 开始，其后的 ';' 属于 query；params 从更之前的第一个 ';' 开始
     auto pound_pos = str.find_first_of('#');
+    auto query_pos = str.find_first_of('?');
+    if (query_pos != std::string::npos && pound_pos != std::string::npos && query_pos > pound_pos)
+        query_pos = std::string::npos;
+    auto semi_pos = str.find_first_of(';');
+    if (semi_pos != std::string::npos &&
+        ((query_pos != std::string::npos && semi_pos > query_pos) ||
+         (pound_pos != std::string::npos && semi_pos > pound_pos)))
+        semi_pos = std::string::npos;
 
     auto path_end_pos = std::string::npos;
     if (semi_pos != std::string::npos)
